@@ -17,7 +17,8 @@ RULE = ("real round trip: a generated SpecSet under a HostContext (text file, ra
         "classes; both views are compared provider by provider); contents are Unicode lines with ids, empty lines anywhere, 0-3 trailing empty lines "
         "and long lines; then for every archive every metadata entry x {data file deleted, metadata truncated at each "
         "quarter, non-JSON, JSON of the wrong shape, unknown component name, null results, entry replaced by a directory} "
-        "plus random subsets is corrupted and the archive re-loaded; one evaluation = one load (clean or corrupted); "
+        "plus random subsets is corrupted and the archive re-loaded; failed components and partly stored multi-output specs "
+        "must carry their errors; a share of archives is persisted through a thread pool; one evaluation = one load (clean or corrupted); "
         "non-trivial = the archive holds >= 3 entries of >= 2 provider kinds; distinct by hash of (archive spec, corruption)")
 ASSUMPTIONS = [
     "lines contain no str.splitlines() break characters, no carriage return and no lone surrogates",
